@@ -14,6 +14,7 @@ EXPLANATION = (
     "C05.P4: every Custom path is required to start with `$.` (None edge of strip_prefix leads only to Err) and issue_sd_jwt propagates that Err before anything is built. "
     "C05.P5 (A10 finite tables): sd_for_key and next_level map the three non-Custom strategies as documented, and the Custom continuation accepts exactly the separators `.` (skipped) and `[` (kept). "
     "Custom path matching on arbitrary trees and the exact payload contents are not decided."
+    " C05.P1 also: no builder returns (a copy of) its input container unwalked. C05.P2 also: the hashed text is the [\"salt\", name, value] template with serde's JSON encoding of the unmodified member name (rule shared with C01.e)."
 )
 ASSUMPTIONS = [
     "serde_json::Map / Vec insert and push place a value exactly once; indexmap preserves insertion order",
